@@ -97,6 +97,7 @@ type Path struct {
 	notes    []string
 	depth    int
 	pendingEscape interface{}
+	merges   int
 	chanSeq  int
 	crcs     []crcRec
 	optShuffle bool
